@@ -98,7 +98,7 @@ def _shuffled(y, rng):
     return y.iloc[idx]
 
 
-Y_MALFORMS = ["y_unsorted", "y_empty", "y_frame", "y_ndarray", "y_list"]
+Y_MALFORMS = ["y_unsorted", "y_decreasing_range", "y_empty", "y_frame", "y_ndarray", "y_list"]
 X_MALFORMS = ["X_shifted", "X_shorter", "X_unsorted", "X_ndarray"]
 FH_MALFORMS = ["fh_dup", "fh_dup_array", "fh_dup_index", "fh_empty", "fh_empty_index",
                "fh_frac_list", "fh_frac_array", "fh_frac_scalar", "fh_str", "fh_dict", "fh_nested"]
@@ -108,6 +108,9 @@ INT_MALFORMS = ["zero", "negative", "fractional", "string", "bool"]
 def malform_y(kind, y, rng):
     if kind == "y_unsorted":
         return _shuffled(y, rng)
+    if kind == "y_decreasing_range":
+        # still a RangeIndex, but running backwards in time
+        return pd.Series(y.values, index=pd.RangeIndex(int(y.index[-1]), int(y.index[0]) - 1, -1))
     if kind == "y_empty":
         return y.iloc[:0]
     if kind == "y_frame":
@@ -240,7 +243,7 @@ def _register_y_cells():
             return dict(control=lambda: mk().fit(ctx.y_train), faulty=faulty,
                         fresh=lambda: holder.get("f"), sig={})
         cell("tuner_fit/" + m, "malformed_y", "entry_tuner")(tuner_cell)
-    for m in ("y_unsorted", "y_empty"):
+    for m in ("y_unsorted", "y_decreasing_range", "y_empty"):
         def split_cell(ctx, m=m):
             sp = _splitter(ctx)
             bad = malform_y(m, ctx.y_train, ctx.rng)
@@ -522,6 +525,16 @@ def _register_int_cells():
         return dict(control=lambda: list(good().split(ctx.y_train)),
                     faulty=lambda: list(bad().split(ctx.y_train)), sig={"splitter": "cutoff"})
     cell("split/cutoff_beyond_series", "window_does_not_fit", "entry_splitter")(cutoff_beyond)
+
+    def cutoff_fh_beyond(ctx):
+        # the last cutoff is fine for a short horizon but a far (gapped) step leaves the series
+        n = len(ctx.y_train)
+        good = _splitter(ctx, type="cutoff", window=4, cutoffs=np.array([8, n - 6]), fh=[2, 5])
+        bad = _splitter(ctx, type="cutoff", window=4, cutoffs=np.array([8, n - 4]),
+                        fh=ctx.rng.choice([[2, 5], [5], [1, 6]]))
+        return dict(control=lambda: list(good().split(ctx.y_train)),
+                    faulty=lambda: list(bad().split(ctx.y_train)), sig={"splitter": "cutoff"})
+    cell("split/cutoff_fh_beyond_series", "window_does_not_fit", "entry_splitter")(cutoff_fh_beyond)
 
     def cutoff_float(ctx):
         good = _splitter(ctx, type="cutoff", window=4, cutoffs=np.array([8, 12]))
